@@ -163,18 +163,26 @@ struct Outcome {
 
 // Deterministic step counter (random driver only): the san build instruments every comparison
 // (-fsanitize=fuzzer-no-link => trace-cmp); counting those callbacks gives a schedule-independent measure of work.
-static uint64_t g_steps = 0, g_max_steps = 0, g_max_steps_per_byte = 0;
+static uint64_t g_steps = 0, g_max_steps = 0, g_max_steps_per_byte = 0, g_step_limit = ~0ULL;
+// a case that never returns (or blows far past its budget) is stopped from inside the counter
+static inline void step() {
+    if (++g_steps > g_step_limit) {
+        static const char m[] = "\nERROR: VerifStepLimit: step-budget-exceeded (the case ran past its work bound)\n";
+        ssize_t w = write(2, m, sizeof m - 1); (void)w;
+        _exit(78);
+    }
+}
 #ifndef VERIF_FUZZ_DRIVER
 extern "C" {
-void __sanitizer_cov_trace_cmp1(uint8_t, uint8_t) { ++g_steps; }
-void __sanitizer_cov_trace_cmp2(uint16_t, uint16_t) { ++g_steps; }
-void __sanitizer_cov_trace_cmp4(uint32_t, uint32_t) { ++g_steps; }
-void __sanitizer_cov_trace_cmp8(uint64_t, uint64_t) { ++g_steps; }
-void __sanitizer_cov_trace_const_cmp1(uint8_t, uint8_t) { ++g_steps; }
-void __sanitizer_cov_trace_const_cmp2(uint16_t, uint16_t) { ++g_steps; }
-void __sanitizer_cov_trace_const_cmp4(uint32_t, uint32_t) { ++g_steps; }
-void __sanitizer_cov_trace_const_cmp8(uint64_t, uint64_t) { ++g_steps; }
-void __sanitizer_cov_trace_switch(uint64_t, uint64_t*) { ++g_steps; }
+void __sanitizer_cov_trace_cmp1(uint8_t, uint8_t) { step(); }
+void __sanitizer_cov_trace_cmp2(uint16_t, uint16_t) { step(); }
+void __sanitizer_cov_trace_cmp4(uint32_t, uint32_t) { step(); }
+void __sanitizer_cov_trace_cmp8(uint64_t, uint64_t) { step(); }
+void __sanitizer_cov_trace_const_cmp1(uint8_t, uint8_t) { step(); }
+void __sanitizer_cov_trace_const_cmp2(uint16_t, uint16_t) { step(); }
+void __sanitizer_cov_trace_const_cmp4(uint32_t, uint32_t) { step(); }
+void __sanitizer_cov_trace_const_cmp8(uint64_t, uint64_t) { step(); }
+void __sanitizer_cov_trace_switch(uint64_t, uint64_t*) { step(); }
 }
 #endif
 // optional per-property work bound: steps allowed for an input of n bytes (0 = no bound claimed)
@@ -201,10 +209,12 @@ static Outcome run_case(Ctx& ctx, const uint8_t* d, size_t n) {
     Src s(d, n);
     if (g_stack_fill >= 0) stack_fill(g_stack_fill);
     ctx.begin_case();
-    const uint64_t steps0 = g_steps;
+    const uint64_t steps0 = g_steps, budget = prop_step_budget(n);
+    g_step_limit = budget ? steps0 + budget * 4 : ~0ULL;   // hard stop well past the budget (covers non-termination)
     try {
         prop(s, ctx);
-        const uint64_t used = g_steps - steps0, budget = prop_step_budget(n);
+        g_step_limit = ~0ULL;
+        const uint64_t used = g_steps - steps0;
         if (budget && used > budget)
             throw PropFail{std::string(PROP_ID) + ":step-budget-exceeded", "the case executed " + std::to_string(used) + " instrumented comparisons, budget for " +
                                                                                    std::to_string(n) + " input bytes is " + std::to_string(budget)};
@@ -223,6 +233,7 @@ static Outcome run_case(Ctx& ctx, const uint8_t* d, size_t n) {
         o.failed = true;
         o.sig = std::string(PROP_ID) + ":escaped-exception:unknown";
     }
+    g_step_limit = ~0ULL;
     o.digest = hash_mix(hash_str(o.sig), 0xfa11);
     if (ctx.is_known(o.sig)) {
         o.known = true;
